@@ -18,6 +18,7 @@ RULE += (" " + 'Also: in 20 % of the runs an unrelated variable whose value is n
 RULE += (" " + '60 % of the unset names are near misses of a variable that is set, mostly one that carries a secret (other case, one character more, less or different).')
 RULE += (" " + 'The unset name is read in one of 12 contexts (file level, function, module body / out expression / parameter default, function in module, module in function, format template, map / reduce callback, select arm, copy field); 40 % of the cases also run under `ucg test` strict and --no-strict.')
 RULE += (" " + 'Every fourth case runs with exactly 0, 1 or 2 variables (not even PATH or HOME): `out json env`, set reads, the unset read in both modes.')
+RULE += (" " + 'Half of the cases read the set variables in one let per variable (30 % of those through an alias `let e = env;`) instead of inside one tuple literal.')
 
 NAME_POOL = ["A", "B", "HOME", "PATH_X", "x", "lower_case", "MiXed", "_LEAD", "__", "A1", "A_B_C", "Z9_", "LONG_" + "N" * 40, "env", "self", "let",
              "NULL", "true", "mod", "item", "in", "SECRET_TOKEN", "DB_PASSWORD", "a"]
@@ -176,6 +177,12 @@ def task(args):
             names = [n for n in env if n not in secrets]
             fields = ", ".join("%s = %s" % (gen.quote("k%d" % i), sel(n)) for i, n in enumerate(names))
             text = "out json {%s};\n" % fields if names else "out json {none = 1};\n"
+            if names and r.random() < 0.5:
+                # the same reads as separate statements (and through an alias of env): one let per variable
+                alias = r.random() < 0.3
+                text = ("let e = env;\n" if alias else "") + "".join("let r%d = %s;\n" % (i, sel(n).replace("env.", "e.", 1) if alias else sel(n)) for i, n in enumerate(names)) + \
+                    "out json {%s};\n" % ", ".join("%s = r%d" % (gen.quote("k%d" % i), i) for i in range(len(names)))
+                res.count("set-variables-read-in-separate-statements")
             res.case((json.dumps(env, sort_keys=True), "read-all"), nontrivial=len(env) >= 2)
             bystander = None
             if r.random() < 0.2:
